@@ -111,13 +111,19 @@ UNION_ELEM = "tuple[int,tuple[str,Payload|Fiber,Payload|Fiber]]"
 
 
 def or_sound(da, db, with_ab=True):
-    ab = "(out[k][1][0] == 'AB' and " + IN_A % da + " and " + IN_B % db + ")"
-    oa = ("(out[k][1][0] == 'A' and " + IN_A % da + " and " + NOT_IN_B +
-          " and fresh(out[k][1][2]) and typeis(out[k][1][2], 'Payload') and out[k][1][2].value == self.b_fiber.g_default)")
-    ob = ("(out[k][1][0] == 'B' and " + IN_B % db + " and " + NOT_IN_A +
-          " and fresh(out[k][1][1]) and typeis(out[k][1][1], 'Payload') and out[k][1][1].value == self.a_fiber.g_default)")
-    parts = ([ab] if with_ab else []) + [oa, ob]
-    return "forall(lambda k: " + " or ".join(parts) + ", 0, len(out))"
+    """Truth-table clauses per output element, as separate implications (cheaper for the solver than one disjunction)."""
+    masks = "out[k][1][0] == 'A' or out[k][1][0] == 'B'" + (" or out[k][1][0] == 'AB'" if with_ab else "")
+    has_a = "out[k][1][0] != 'B'"
+    has_b = "out[k][1][0] != 'A'"
+    return [
+        "forall(lambda k: " + masks + ", 0, len(out))",
+        "forall(lambda k: implies(" + has_a + ", " + IN_A % da + "), 0, len(out))",
+        "forall(lambda k: implies(" + has_b + ", " + IN_B % db + "), 0, len(out))",
+        "forall(lambda k: implies(out[k][1][0] == 'A', " + NOT_IN_B + "), 0, len(out))",
+        "forall(lambda k: implies(out[k][1][0] == 'B', " + NOT_IN_A + "), 0, len(out))",
+        "forall(lambda k: implies(out[k][1][0] == 'A', fresh(out[k][1][2]) and typeis(out[k][1][2], 'Payload') and out[k][1][2].value == self.b_fiber.g_default), 0, len(out))",
+        "forall(lambda k: implies(out[k][1][0] == 'B', fresh(out[k][1][1]) and typeis(out[k][1][1], 'Payload') and out[k][1][1].value == self.a_fiber.g_default), 0, len(out))",
+    ]
 
 
 def fin(s):
@@ -125,7 +131,7 @@ def fin(s):
 
 
 OR_INV = ["not is_collecting", "not a_traced", "not b_traced", SORTED_A, SORTED_B, A_HEAD, B_HEAD, SORTED_OUT,
-          OUT_LT, H_A, H_B, GE_A, GE_B, or_sound(DONE_A, DONE_B),
+          OUT_LT, H_A, H_B, GE_A, GE_B] + or_sound(DONE_A, DONE_B) + [
           "forall(lambda i: exists(lambda k: 0 <= k and k < len(out) and out[k][0] == a.seq[i][0], witness=[len(out) - 1]), 0, " + DONE_A + ")",
           "forall(lambda j: exists(lambda k: 0 <= k and k < len(out) and out[k][0] == b.seq[j][0], witness=[len(out) - 1]), 0, " + DONE_B + ")"]
 LEAF_AB = ["wf(self.a_fiber)", "wf(self.b_fiber)", "self.a_fiber.g_leaf", "self.b_fiber.g_leaf", "not Metrics.collecting"]
@@ -134,11 +140,43 @@ contract(F, "__or__.or_iterator.__iter__", types=dict(self="or_iterator"),
          yields=dict(elem=UNION_ELEM),
          requires=LEAF_AB, modifies=[],
          ensures={"C04 C10": [
-             fin(SORTED_OUT),
-             fin(or_sound("len(a.seq)", "len(b.seq)")),
+             fin(SORTED_OUT)] + [fin(x) for x in or_sound("len(a.seq)", "len(b.seq)")] + [
              fin("forall(lambda i: exists(lambda k: 0 <= k and k < len(out) and out[k][0] == a.seq[i][0]), 0, len(a.seq))"),
              fin("forall(lambda j: exists(lambda k: 0 <= k and k < len(out) and out[k][0] == b.seq[j][0]), 0, len(b.seq))")]},
          loops={0: dict(types=MERGE_TYPES, invariant=OR_INV),
-                1: dict(types=MERGE_TYPES, invariant=OR_INV + ["isnone(b_coord)"]),
+                1: dict(types=MERGE_TYPES, invariant=OR_INV + ["isnone(a_coord) or isnone(b_coord)"]),
                 2: dict(types=MERGE_TYPES, invariant=OR_INV + ["isnone(a_coord)"])},
          note="leaf ranks: the absent side is a fresh box holding that fiber's default (interior ranks: C02/C10 bounded parts)")
+
+# ---- xor: like union without the matching coordinates
+XOR_INV = ([SORTED_A, SORTED_B, A_HEAD, B_HEAD, SORTED_OUT, OUT_LT, H_A, H_B, GE_A, GE_B] + or_sound(DONE_A, DONE_B, with_ab=False) + [
+    "forall(lambda i: exists(lambda j: 0 <= j and j < len(b.seq) and b.seq[j][0] == a.seq[i][0]) or exists(lambda k: 0 <= k and k < len(out) and out[k][0] == a.seq[i][0], witness=[len(out) - 1]), 0, " + DONE_A + ")",
+    "forall(lambda j: exists(lambda i: 0 <= i and i < len(a.seq) and a.seq[i][0] == b.seq[j][0]) or exists(lambda k: 0 <= k and k < len(out) and out[k][0] == b.seq[j][0], witness=[len(out) - 1]), 0, " + DONE_B + ")"])
+XOR_LEAF = ["wf(self.a_fiber)", "wf(self.b_fiber)", "self.a_fiber.g_leaf", "self.b_fiber.g_leaf"]
+
+contract(F, "__xor__.xor_iterator.__iter__", types=dict(self="xor_iterator"),
+         yields=dict(elem=UNION_ELEM),
+         requires=XOR_LEAF, modifies=[],
+         ensures={"C04 C10": [fin(SORTED_OUT)] + [fin(x) for x in or_sound("len(a.seq)", "len(b.seq)", with_ab=False)] + [
+             fin("forall(lambda i: exists(lambda j: 0 <= j and j < len(b.seq) and b.seq[j][0] == a.seq[i][0]) or exists(lambda k: 0 <= k and k < len(out) and out[k][0] == a.seq[i][0]), 0, len(a.seq))"),
+             fin("forall(lambda j: exists(lambda i: 0 <= i and i < len(a.seq) and a.seq[i][0] == b.seq[j][0]) or exists(lambda k: 0 <= k and k < len(out) and out[k][0] == b.seq[j][0]), 0, len(b.seq))")]},
+         loops={0: dict(types=MERGE_TYPES, invariant=XOR_INV),
+                1: dict(types=MERGE_TYPES, invariant=XOR_INV + ["isnone(a_coord) or isnone(b_coord)"]),
+                2: dict(types=MERGE_TYPES, invariant=XOR_INV + ["isnone(a_coord)"])})
+
+# ---- difference: a's elements whose coordinate b does not present, with a's own payloads
+SUB_IN_A = "exists(lambda i: 0 <= i and i < %s and a.seq[i][0] == out[k][0] and out[k][1] is a.seq[i][1])"
+SUB_INV = [SORTED_A, SORTED_B, A_HEAD, B_HEAD, SORTED_OUT, OUT_LT, H_A, H_B, GE_A, GE_B,
+           "forall(lambda k: " + SUB_IN_A % DONE_A + ", 0, len(out))",
+           "forall(lambda k: " + NOT_IN_B + ", 0, len(out))",
+           "forall(lambda i: exists(lambda j: 0 <= j and j < len(b.seq) and b.seq[j][0] == a.seq[i][0]) or exists(lambda k: 0 <= k and k < len(out) and out[k][0] == a.seq[i][0], witness=[len(out) - 1]), 0, " + DONE_A + ")"]
+
+contract(F, "__sub__.sub_iterator.__iter__", types=dict(self="sub_iterator"),
+         yields=dict(elem=ELEM),
+         requires=["wf(self.a_fiber)", "wf(self.b_fiber)"], modifies=[],
+         ensures={"C04 C10": [fin(SORTED_OUT),
+                              fin("forall(lambda k: " + SUB_IN_A % "len(a.seq)" + ", 0, len(out))"),
+                              fin("forall(lambda k: " + NOT_IN_B + ", 0, len(out))"),
+                              fin("forall(lambda i: exists(lambda j: 0 <= j and j < len(b.seq) and b.seq[j][0] == a.seq[i][0]) or exists(lambda k: 0 <= k and k < len(out) and out[k][0] == a.seq[i][0]), 0, len(a.seq))")]},
+         loops={0: dict(types=MERGE_TYPES, invariant=SUB_INV),
+                1: dict(types=MERGE_TYPES, invariant=SUB_INV + ["isnone(a_coord) or isnone(b_coord)"])})
